@@ -145,7 +145,14 @@ func (pkgs allpkgs) namedTypeToInterface(
 	t *types.Named,
 	opts set.BitSet[ParseIFaceOption],
 ) *Interface {
-	pkg, hasPkg := pkgs.findPKgByName(t.Obj().Pkg().Path())
+	// The source of the type is only at hand if its package is among the loaded ones: it is not
+	// for the predeclared error (no package at all) nor for a package that is merely imported
+	// by an import. Such types (met as embedded fields) have methods, but no comments.
+	var pkg *packages.Package
+	hasPkg := false
+	if typePkg := t.Obj().Pkg(); typePkg != nil {
+		pkg, hasPkg = pkgs.findPKgByName(typePkg.Path())
+	}
 	var methodz hasMethods = t
 	if methodz.NumMethods() == 0 {
 		if iface, ok := t.Underlying().(*types.Interface); ok {
@@ -169,7 +176,9 @@ func (pkgs allpkgs) namedTypeToInterface(
 			method := MethodFromSignature(ih, mInfo.Type().(*types.Signature))
 			method.Name = mInfo.Name()
 			method.IsExported = mInfo.Exported()
-			method.Comments = CommentsFromMethod(pkg, t.Obj().Name(), mInfo.Name())
+			if hasPkg {
+				method.Comments = CommentsFromMethod(pkg, t.Obj().Name(), mInfo.Name())
+			}
 			result.Methods = append(result.Methods, method)
 		}
 	}
